@@ -195,8 +195,8 @@ Record ost := {
   o_next : nat;                     (* ghost: next serial *)
   o_known : bool;                   (* the memory is in ResourceMemories._items (reachable by the daemon killer) *)
   o_gone : bool;                    (* a DELETED event was processed: Kubernetes delivers nothing more for this uid *)
-  o_kstop : list nat;               (* ghost: serials of the daemons picked by daemon_killer (stop_daemon scheduled) *)
-  o_kiter : bool;                   (* daemon_killer is inside `for daemon in memory.running_daemons.values()` of THIS memory *)
+  o_kstop : list nat;               (* ghost: serials of the daemons in a killer's `list(memory.running_daemons.values())` *)
+  o_kiter : bool;                   (* THIS memory is in the killer's `list(memories.iter_all_daemon_memories())` and not reached yet *)
   o_delays : list Z                 (* output register: delays returned by the last process_spawning_cause *)
 }.
 
@@ -303,9 +303,8 @@ Definition forget (s : ost) : ost :=
 Inductive label :=
 | LProc (deleted_event : bool) (v : view) (now : Z) (orc : list (bool * list bool))
 | LEnd (id ser : nat)                          (* a runner task finishes outside of process_spawning_cause *)
-| LKEnter                                       (* daemon_killer's iteration over `memories` yields this (still known) memory *)
-| LKLeave                                       (* ... and moves on *)
-| LKSweep (id ser : nat)                        (* daemon_killer picks a running daemon out of `memories` and schedules stop_daemon *)
+| LKEnter                                       (* daemon_killer (since c948bdc): `list(memories.iter_all_daemon_memories())` contains this, still known, memory *)
+| LKSnap                                        (* ... its loop reaches it: `list(memory.running_daemons.values())`; a stop_daemon is scheduled for each *)
 | LKStart (id ser : nat) (why : reason) (now : Z)  (* that stop_daemon starts: sets the reason (the daemon may have ended meanwhile) *)
 | LKSet (id ser : nat) (r : reason) (now : Z)      (* that stop_daemon sets SIGNALLED / CANCELLED / ABANDONED *)
 | LKCancel (id ser : nat).
@@ -338,15 +337,14 @@ Definition step (spoll : Z) (s : ost) (l : label) : option ost :=
       | None => None
       end
   | LKEnter => if o_known s then Some (set_kiter s true) else None
-  | LKLeave => Some (set_kiter s false)
-  | LKSweep id ser =>
-      (* the killer holds Daemon objects: one that has ended meanwhile is still "stopped" by it, without any effect *)
+  | LKSnap =>
+      (* the snapshots are plain lists: what ends, is forgotten or spawned meanwhile does not disturb the iteration;
+         a Daemon that has ended before its stop_daemon runs is still "stopped" by it, without any effect *)
       if o_kiter s then
-        Some (if has_inst s id ser
-              then {| o_running := o_running s; o_forever := o_forever s; o_live := o_live s; o_next := o_next s;
-                      o_known := o_known s; o_gone := o_gone s; o_kstop := ser :: o_kstop s; o_kiter := o_kiter s;
-                      o_delays := o_delays s |}
-              else s)
+        Some {| o_running := o_running s; o_forever := o_forever s; o_live := o_live s; o_next := o_next s;
+                o_known := o_known s; o_gone := o_gone s;
+                o_kstop := map (fun kv => i_ser (snd kv)) (o_running s) ++ o_kstop s; o_kiter := false;
+                o_delays := o_delays s |}
       else None
   | LKStart id ser why now =>
       if (nmem ser (o_kstop s) || negb (has_inst s id ser)) && kreason why
@@ -382,7 +380,8 @@ Inductive tpoint :=
 Record tcfg := { t_interval : option Z; t_idle : option Z; t_sharp : bool }.
 
 (* `reset_after` = (memory.idle_reset_time > started); it cannot change while the coroutine does not yield.
-   `guarded` = the proposed repair (`and not stopper.is_set()` in the idle-only loop); the code as it is: false. *)
+   `guarded` = the idle-only loop also tests the stopper (`and not stopper.is_set()`): TRUE for the code since ba077d7
+   (the faithful model is `timer_tail true`); false describes the loop as it was before that fix (hypothetical variant). *)
 Definition tstep (guarded : bool) (c : tcfg) (reset_after : bool) (p : tpoint) : tpoint * nat (* sleep() calls made *) :=
   match p with
   | TTop => (TExit, 0%nat)
